@@ -4,7 +4,7 @@ open Proto C17
 
 /-! Line protocol of the C17 model.
 Expressions: `(lit n) (var v) (neg a) (add a b) (sub a b) (mul a b) (div a b) (pow a k) (mod a b) (min a b)
-(max a b) (arr1 f i) (arr2 f i j)`.
+(max a b) (arr1 f i) (arr2 f i j) (arr3 f i j k) (powe a b)`.
 Requests:
 * `(eq brk e1 e2)`        → `<modelEqual> <modelNever> <in the domain of normQ>`
 * `(expand brk e)`        → polynomial `((num den v1 v2 …) …)` or `none`
@@ -20,6 +20,7 @@ partial def toExpr : Sexp → Option IExpr
   | .list [.atom "pow", a, k] => do some (.pow (← toExpr a) (← k.nat?))
   | .list [.atom "arr1", f, i] => do some (.arr1 (← f.nat?) (← toExpr i))
   | .list [.atom "arr2", f, i, j] => do some (.arr2 (← f.nat?) (← toExpr i) (← toExpr j))
+  | .list [.atom "arr3", f, i, j, k] => do some (.arr3 (← f.nat?) (← toExpr i) (← toExpr j) (← toExpr k))
   | .list [.atom op, a, b] => do
     let x ← toExpr a
     let y ← toExpr b
@@ -31,14 +32,17 @@ partial def toExpr : Sexp → Option IExpr
     | "mod" => some (.mod x y)
     | "min" => some (.min x y)
     | "max" => some (.max x y)
+    | "powe" => some (.powe x y)
     | _ => none
   | _ => none
 
 def testF1 (f : Nat) (z : Int) : Int := (f + 2) * z * z - 3 * z + f + 1
 def testF2 (f : Nat) (y z : Int) : Int := (f + 1) * y - 2 * z * y + z + f
 
+def testF3 (f : Nat) (x y z : Int) : Int := (f + 1) * x + 2 * y * z - 3 * z + x * y + f
+
 def envOf (zs : List Int) : Env :=
-  { var := fun v => zs.getD v 0, f1 := testF1, f2 := testF2 }
+  { var := fun v => zs.getD v 0, f1 := testF1, f2 := testF2, f3 := testF3 }
 
 def showPoly (p : Poly) : String :=
   showList (fun t => "(" ++ " ".intercalate (toString t.2.num :: toString t.2.den :: t.1.map toString) ++ ")") p
